@@ -214,6 +214,28 @@ func matchSpec(fn *ssa.Function, in ssa.Instruction, spec string, selSend map[*s
 			}
 		}
 		return false
+	case "append-to":
+		// an append to the named local slice (or ".Field")
+		c, ok := in.(*ssa.Call)
+		if !ok {
+			return false
+		}
+		bi, ok := c.Call.Value.(*ssa.Builtin)
+		if !ok || bi.Name() != "append" || len(c.Call.Args) == 0 {
+			return false
+		}
+		return rootName(fn, c.Call.Args[0], 0) == arg
+	case "len-of-field":
+		// len(x.Field) of the named field
+		c, ok := in.(*ssa.Call)
+		if !ok {
+			return false
+		}
+		bi, ok := c.Call.Value.(*ssa.Builtin)
+		if !ok || bi.Name() != "len" || len(c.Call.Args) != 1 {
+			return false
+		}
+		return rootName(fn, c.Call.Args[0], 0) == "."+arg
 	case "mapupdate":
 		// a store into the named map (local, parameter or field)
 		mu, ok := in.(*ssa.MapUpdate)
